@@ -1342,7 +1342,14 @@ fn corrupt(sink: &mut Sink, o: &Opts) {
     };
     for k in 0..o.n {
         let cfg = gen::MapCfg { max_classes: 1 + k % 5, max_members: 1 + k % 6, wild: k % 4 == 0, noise: false };
-        let src = if k % 6 == 5 { gen::mapping_long_strings(&mut rng) } else { gen::mapping(&mut rng, &cfg) };
+        let generated = if k % 6 == 5 { gen::mapping_long_strings(&mut rng) } else { gen::mapping(&mut rng, &cfg) };
+        // the first inputs are fixed: classes sharing a long name prefix (and short member names), so that redirected
+        // name offsets below put the tables out of writer order in every way
+        let src = match k {
+            0 => b"com.example.A -> o.pkg.a:\n    void m() -> x\ncom.example.B -> o.pkg.b:\n    1:2:void n(int):3:4 -> y\ncom.example.C -> o.pkg.c:\n    void o() -> z\n".to_vec(),
+            1 => b"p.A -> aaaa:\np.B -> aaab:\n    void m() -> a\np.C -> aaac:\np.D -> aaad:\n    void n() -> aaaa\n".to_vec(),
+            _ => generated,
+        };
         let Ok(good) = crate::handles::write_cache(&src) else { continue };
         if good.len() < 24 {
             continue;
@@ -1434,6 +1441,22 @@ fn corrupt(sink: &mut Sink, o: &Opts) {
             }
             let fixed: Vec<(String, String, usize, String)> = queries.iter().take(5).cloned().collect();
             let mut edits: Vec<(String, Vec<u8>)> = vec![];
+            // every name offset of every class and member record redirected to every string of the table (tables out of
+            // writer order, names of other lengths, names that are prefixes of one another)
+            if nc * 7 + (nm + np) * 9 <= 80 {
+                let mut fields: Vec<usize> = (0..nc).map(|c| classes_at + 28 * c).collect();
+                fields.extend((0..nm).map(|m| members_at + 36 * m));
+                fields.extend((0..np).map(|m| by_at + 36 * m));
+                for off in fields {
+                    for &st in starts.iter().take(14) {
+                        let mut b = good.clone();
+                        b[off..off + 4].copy_from_slice(&(st as u32).to_le_bytes());
+                        if b != good {
+                            edits.push((format!("name@{off}->str{st}"), b));
+                        }
+                    }
+                }
+            }
             for &st in starts.iter().take(12) {
                 for run in [1usize, 2, 4, 8, 9, 10, 11, 16, 40] {
                     for (cont, term) in [(0x80u8, 0x00u8), (0x80, 0x01), (0xff, 0x7f), (0xff, 0x00)] {
